@@ -396,7 +396,27 @@ func ruleJSN3(c *Ctx) {
 	}
 	// const string -> strconv.Quote ; const float -> FormatFloat(..., -1, 64)
 	quoted, floatOK, floatBad := false, false, ""
-	for _, ci := range callsIn(bex) {
+	var numFns []*ssa.Function
+	for _, name := range []string{"ParseJSONRule", "ParseJSONRuleset", "ParseRule"} {
+		if root := p.Func("pkg", name); root != nil {
+			for f := range c.reachableModuleFuncs([]*ssa.Function{root}, false) {
+				if fnPkgShort(f) == "pkg" {
+					numFns = append(numFns, f)
+				}
+			}
+		}
+	}
+	sort.Slice(numFns, func(i, j int) bool { return numFns[i].String() < numFns[j].String() })
+	var numCalls []ssa.CallInstruction
+	seenNF := map[*ssa.Function]bool{}
+	for _, f := range numFns {
+		if seenNF[f] {
+			continue
+		}
+		seenNF[f] = true
+		numCalls = append(numCalls, callsIn(f)...)
+	}
+	for _, ci := range append(callsIn(bex), numCalls...) {
 		call, ok := ci.(*ssa.Call)
 		if !ok {
 			continue
@@ -407,7 +427,7 @@ func ruleJSN3(c *Ctx) {
 		}
 		switch f.String() {
 		case "strconv.Quote":
-			if _, isTA := stripConv(call.Call.Args[0]).(*ssa.Extract); isTA || true {
+			if call.Parent() == bex {
 				quoted = true
 			}
 		case "strconv.FormatFloat":
@@ -428,19 +448,38 @@ func ruleJSN3(c *Ctx) {
 	// ... and as a literal the GRL lexer and the listener accept: format 'f' prints every integral value in plain
 	// digits, which is an *integer* literal; beyond 2^63 the listener's ParseInt rejects it. 'e'/'g' always give a float
 	// literal or an integer below 10^17. So an 'f' rendering must sit under a magnitude test of the same value.
-	for _, ci := range callsIn(bex) {
+	for _, ci := range numCalls {
 		call, ok := ci.(*ssa.Call)
-		if !ok || call.Call.StaticCallee() == nil || call.Call.StaticCallee().String() != "strconv.FormatFloat" {
+		if !ok || call.Call.StaticCallee() == nil {
 			continue
 		}
+		hostFn := call.Parent()
+		// a number printed with fmt's default verb (%v = 'g') turns every integral value from 1e6 on into exponent form:
+		// a float literal where the JSON number was an integer, which %, & and | reject and + prints as 1e+06
+		if cn := call.Call.StaticCallee().String(); cn == "fmt.Sprint" || cn == "fmt.Sprintf" || cn == "fmt.Sprintln" {
+			for _, op := range varargElems(call.Call.Args[len(call.Call.Args)-1]) {
+				if isFloat(stripConv(op).Type()) {
+					c.Fail(fnName(hostFn)+" / a JSON number is written as the literal of the same kind", p.InstrPos(call), "a float64 operand is formatted by "+cn+": integral numbers from 1e6 on come out in exponent form (1000000 -> 1e+06), a float literal, so {\"mod\":[\"X.I\",1000000]} builds but cannot be evaluated and string concatenation prints 1e+06")
+				}
+			}
+			continue
+		}
+		if call.Call.StaticCallee().String() != "strconv.FormatFloat" {
+			continue
+		}
+		bex := hostFn
 		verb, okv := constInt(call.Call.Args[1])
-		construct := "buildExpressionEx / numeric constant is emitted as a literal the builder accepts"
+		construct := fnName(hostFn) + " / a JSON number is emitted as a literal the builder accepts, of the same kind"
+		if okv && verb == 'g' {
+			c.Fail(construct, p.InstrPos(call), "format 'g' writes integral numbers from 1e6 on (1e21 with other precisions) in exponent form: a float literal where the JSON number was an integer")
+			continue
+		}
 		if !okv {
 			c.Undecided(construct, p.InstrPos(call), "format verb of FormatFloat is not a constant")
 			continue
 		}
 		if verb != 'f' {
-			c.OK(construct, p.InstrPos(call), fmt.Sprintf("format %q yields a float literal or a short integer", rune(verb)))
+			c.OK(construct, p.InstrPos(call), fmt.Sprintf("format %q is used for what cannot be an integer literal", rune(verb)))
 			continue
 		}
 		v := call.Call.Args[0]
@@ -504,32 +543,6 @@ func ruleJSN3(c *Ctx) {
 		}
 	}
 	c.Check(descQuoted, "parseRule / description is quoted", p.Pos(pr.Pos()), "strconv.Quote(rule.Description)", "the rule description is emitted unquoted")
-	// other float renderings in the translator (implicit operands): fmt.Sprint(float64) is the shortest round-trip form
-	for _, fnName := range []string{"parseOperand", "parseCallOperand"} {
-		fn := p.Func("pkg", fnName)
-		if fn == nil {
-			continue
-		}
-		for _, ci := range callsIn(fn) {
-			call, ok := ci.(*ssa.Call)
-			if !ok {
-				continue
-			}
-			f := call.Call.StaticCallee()
-			if f == nil {
-				continue
-			}
-			if f.String() == "fmt.Sprintf" {
-				format, _ := constString(call.Call.Args[0])
-				ops := varargElems(call.Call.Args[1])
-				for i, sp := range fmtSpecs(format) {
-					if i < len(ops) && isFloat(stripConv(ops[i]).Type()) {
-						c.Check(floatSpecOK(sp), fnName+" / implicit number operand formatted losslessly", p.InstrPos(call), "%"+sp, "a JSON number operand is formatted with %"+sp)
-					}
-				}
-			}
-		}
-	}
 }
 
 func ruleJSN4(c *Ctx) {
@@ -995,5 +1008,96 @@ func ruleJSN8(c *Ctx) {
 	}
 	if n == 0 {
 		c.Fail("JSON rule decode sites", "-", "no json.Unmarshal / Decoder.Decode on the JSON rule path (anchor lost)")
+	}
+}
+
+func init() {
+	register("JSN-9", "a plain-string condition or action is echoed as written (only a terminating `;` may be appended)", 2, ruleJSN9)
+}
+
+// JSN-9: the format promises that a plain string is raw input echoed into the rule. Any processing of it (splitting on
+// `;`, trimming, case folding) is blind to string literals inside it and changes what the rule says.
+func ruleJSN9(c *Ctx) {
+	p := c.P
+	for _, name := range []string{"parseThen", "parseWhen"} {
+		fn := p.Func("pkg", name)
+		if fn == nil {
+			c.AnchorLost("pkg." + name)
+			continue
+		}
+		n := 0
+		bad := ""
+		for _, b := range fn.Blocks {
+			for _, in := range b.Instrs {
+				ta, ok := in.(*ssa.TypeAssert)
+				if !ok || !isString(ta.AssertedType) {
+					continue
+				}
+				n++
+				var str ssa.Value = ta
+				if ta.CommaOk {
+					for _, r := range *ta.Referrers() {
+						if ex, ok := r.(*ssa.Extract); ok && ex.Index == 0 {
+							str = ex
+						}
+					}
+				}
+				seen := map[ssa.Value]bool{}
+				var follow func(v ssa.Value, d int)
+				follow = func(v ssa.Value, d int) {
+					if seen[v] || d > 8 || v.Referrers() == nil {
+						return
+					}
+					seen[v] = true
+					for _, r := range *v.Referrers() {
+						switch x := r.(type) {
+						case *ssa.BinOp:
+							if x.Op == token.ADD {
+								follow(x, d+1)
+							}
+						case *ssa.Phi:
+							follow(x, d+1)
+						case *ssa.Store:
+							// element of the result slice or a local: follow loads of a local
+							if al, ok := x.Addr.(*ssa.Alloc); ok {
+								for _, rr := range *al.Referrers() {
+									if ld, ok := rr.(*ssa.UnOp); ok && ld.Op == token.MUL {
+										follow(ld, d+1)
+									}
+								}
+							}
+							if ia, ok := x.Addr.(*ssa.IndexAddr); ok {
+								// later loads of the same element (thens[i] += ";")
+								for _, rr := range *ia.X.Referrers() {
+									if ia2, ok := rr.(*ssa.IndexAddr); ok {
+										for _, r3 := range *ia2.Referrers() {
+											if ld, ok := r3.(*ssa.UnOp); ok && ld.Op == token.MUL {
+												follow(ld, d+1)
+											}
+										}
+									}
+								}
+							}
+						case *ssa.MakeInterface, *ssa.Return, *ssa.Extract, *ssa.Slice:
+						case ssa.CallInstruction:
+							cn := calleeName(x)
+							if cn == "strings.HasSuffix" || cn == "len" {
+								continue
+							}
+							if bi, ok := x.Common().Value.(*ssa.Builtin); ok && (bi.Name() == "len" || bi.Name() == "append") {
+								continue
+							}
+							bad = "the plain string is passed through " + cn + " at " + p.InstrPos(x.(ssa.Instruction))
+						}
+					}
+				}
+				follow(str, 0)
+			}
+		}
+		if n == 0 {
+			c.Fail("pkg."+name+" / plain-string form", p.Pos(fn.Pos()), "no string case found (anchor lost)")
+			continue
+		}
+		c.Check(bad == "", "pkg."+name+" / a plain string is echoed unchanged", p.Pos(fn.Pos()), "only concatenation (a terminating `;`) is applied", bad+": processing that does not know about string literals alters them (F.S = \"a;b\" split on the semicolon, a trimmed literal, ...)")
 	}
 }
